@@ -179,8 +179,11 @@ def case_pluto(mon, jde):
         ra, dec = Pluto.geocentric_position(e)
     except ValueError as ex:
         # documented refusal, judged with the library's own year()
+        # (the position one light-time earlier - at most 0.29 day for
+        # Pluto - has to lie inside the range as well)
         if "outside the 1885-2099 range" in str(ex) and \
-                not (1885.0 <= e.year() <= 2099.0):
+                not (1885.0 <= Epoch(jd - 0.29).year()
+                     and e.year() <= 2099.0):
             mon.refusal("pluto:outside 1885-2099")
             return
         mon.dev("pluto.direction", dict(case, raised=repr(ex)))
@@ -572,6 +575,16 @@ def run(mon, spec):
             j = jd_of_year(rng.uniform(1885.01, 2098.99))
             mon.begin("pluto", [j])
             case_pluto(mon, j)
+        if spec["idx"] == 0:
+            # both ends of the documented range in twentieths of a day: the
+            # first and the last instants that must be answered
+            from pymeeus.Epoch import Epoch as _E
+            lo, hi = _E(1885, 1, 1.0).jde(), _E(2099, 1, 1.0).jde()
+            for k in range(-20, 81):
+                for j in (lo + 0.05 * k, hi - 0.05 * k):
+                    mon.begin("pluto", [j])
+                    mon.cls("pluto-range-end", ("pluto-end", j))
+                    case_pluto(mon, j)
     else:
         if spec["idx"] == 0:
             # Meeus' examples: Encke (elliptic) and a parabolic comet
